@@ -173,10 +173,14 @@ def run_verus(unit, cfg, text, scratch, rlimit=None, seed=None, extra=None):
         for s in spans:
             if s.get("is_primary"):
                 prim = s
-        order = [s for s in spans if not s.get("is_primary")] + ([prim] if prim else [])
-        if kind in ("inv-end", "inv-entry", "inv", "assert", "decreases") and prim is not None:
-            order = [prim] + [s for s in spans if not s.get("is_primary")]
+        secondary = [s for s in spans if not s.get("is_primary")]
+        if kind == "pre":
+            order = secondary + ([prim] if prim else [])      # secondary span = the failed requires clause
+        else:
+            order = ([prim] if prim else []) + secondary      # primary span = the failed clause
         for s in order:
+            if s.get("line_end", 0) - s.get("line_start", 0) > 8:
+                continue                                       # a whole function body, not a clause
             for ln in range(s.get("line_start", 0), s.get("line_end", 0) + 1):
                 if ln in tagmap:
                     found.extend(tagmap[ln])
